@@ -67,8 +67,13 @@ theorem restartStep_cs (s : State) (full : Bool) :
   split <;> exact ⟨rfl, rfl, rfl⟩
 
 /-- the decided version of the fresh running instance `i` that `commits` puts into the container -/
+def commitsInst (s : State) (i : Inst) (root : Nat) : Inst :=
+  { i with decided := true, commits := singles s.q root, accepted := some root }
+
+theorem commitsInst_height (s : State) (i : Inst) (root : Nat) : (commitsInst s i root).height = i.height := rfl
+
 def commitsCtrl (s : State) (i : Inst) (root : Nat) : Ctrl :=
-  { s.c with insts := replaceInst { i with decided := true, commits := singles s.q root } s.c.insts }
+  { s.c with insts := replaceInst (commitsInst s i root) s.c.insts }
 
 /-- `commits` either does nothing (not applicable) or decides the fresh running instance `i` of height `rh`; the runner
     then saves it, unless the duty already holds a decided value -/
@@ -97,7 +102,7 @@ theorem commitsStep_cases (s : State) (root : Nat) (vc : Bool) :
           right
           have hnd : i.decided = false := by
             simp only [Bool.and_eq_true, Bool.not_eq_true'] at hg
-            exact hg.1.1.1
+            exact hg.1.1.1.1
           cases hv : s.r.hasValue
           · refine ⟨rh, i, rfl, hf, hnd, rfl, ?_, rfl, Or.inr ⟨rfl, rfl⟩⟩
             simp only [Bool.false_eq_true, if_false]
@@ -183,13 +188,22 @@ theorem runnerSaves_new {r : Runner} {h : Nat} {o : DOut} (hsv : runnerSaves r h
   simp only [Bool.and_eq_true] at hsv
   simpa using hsv.1.1.1
 
-/-- a `.new` outcome: the message was a valid decided message, so the controller height is at or above its height -/
-theorem new_valid {s : State} {h : Nat} {m : Msg} {ok : Bool} (hnew : (processMsg s.q s.c s.s h m ok).2.2 = .new) :
-    s.q ≤ m.signers.length ∧ processMsg s.q s.c s.s h m ok = uponDecided s.c s.s h m ∧
+/-- a `.new` outcome: the message's height is at or below the controller height afterwards -/
+theorem new_height {s : State} {h : Nat} {m : Msg} {ok : Bool} (hnew : (processMsg s.q s.c s.s h m ok).2.2 = .new) :
     h ≤ (processMsg s.q s.c s.s h m ok).1.height := by
-  rcases processMsg_cases s.q s.c s.s h m ok with he | ⟨_, hq, he⟩
+  rcases processMsg_cases s.q s.c s.s h m ok with he | ⟨_, _, he⟩ | ⟨_, _, he⟩
   · rw [he] at hnew; cases hnew
-  · exact ⟨hq, he, by rw [he]; exact (uponDecided_height_ge s.c s.s h m).1⟩
+  · rw [he]; exact (uponDecided_height_ge s.c s.s h m).1
+  · rw [he] at hnew ⊢
+    simp only at hnew ⊢
+    rw [(existingMsg_height s.q s.c s.s h m).1]
+    -- not a future message (else the outcome is an error)
+    unfold existingMsg at hnew
+    split at hnew
+    · cases hnew
+    · rename_i hcond
+      simp only [Bool.or_eq_true, decide_eq_true_eq, not_or, Nat.not_lt] at hcond
+      exact hcond.2
 
 theorem commitsCtrl_height (s : State) (i : Inst) (root : Nat) : (commitsCtrl s i root).height = s.c.height := rfl
 
@@ -231,10 +245,11 @@ theorem SInv.step {s : State} (inv : SInv s) (op : Op) : SInv (Heights.step s op
     cases hsv : runnerSaves s.r h (processMsg s.q s.c s.s h m ok).2.2
     · simpa using hc2
     · simp only [if_true]
-      obtain ⟨hq, _, hle⟩ := new_valid (runnerSaves_new hsv)
-      simp only [hq, if_true] at hc2 ⊢
+      have hle := new_height (runnerSaves_new hsv)
       apply hc2.saveFound
-      rw [compactAt_height]; exact hle
+      split
+      · rw [compactAt_height]; exact hle
+      · exact hle
   · rw [hc, hs]; exact inv.processMsg_ctrl s.q h m ok
   · rw [hc, hs]
     unfold decidedViaRunnerSF
@@ -250,10 +265,11 @@ theorem SInv.step {s : State} (inv : SInv s) (op : Op) : SInv (Heights.step s op
     · simpa using hc2
     · simp only [if_true]
       simp only [Bool.and_eq_true] at hsv
-      obtain ⟨hq, _, hle⟩ := new_valid (runnerSaves_new hsv.1)
-      simp only [hq, if_true] at hc2 ⊢
+      have hle := new_height (runnerSaves_new hsv.1)
       apply hc2.saveFound
-      rw [compactAt_height]; exact hle
+      split
+      · rw [compactAt_height]; exact hle
+      · exact hle
   · rw [hc, hs]; exact CInv.commits inv root vc
   · rw [hc, hs]; exact inv.compact h
   · rw [hc, hs]; exact inv.load full
